@@ -217,7 +217,7 @@ def model_refs(evs, cellpos, refs):
 
 def check(sr, drv, inp, res):
     c = inp.get("corruption", {"kind": "none"})
-    if c["kind"] not in ("none", "retarget", "recase"):
+    if c["kind"] not in ("none", "retarget", "recase", "rescope"):
         return
     tree = sexp(inp["text"])
     ex = events(tree) if tree is not None else None
@@ -237,6 +237,11 @@ def check(sr, drv, inp, res):
     if m["undeclared"] and impl_ok:
         sig = SIG_DESIGN if is_design else "edif.%s.undeclared_target_accepted" % c.get("ref", "ref")
         sr.spec_failure(sig, brief, "Spec hasUndeclared(stream) is true but the reader accepted the file")
+    if m["ok"] and not impl_ok and c["kind"] == "rescope" and c.get("expect") != "raise":
+        # the new target is in scope, so resolution succeeds; the file may still break another rule
+        # (e.g. the same pin joined by two nets), which is not reference resolution
+        sr.dist("resolve.rescope.in_scope_but_rejected_for_another_reason")
+        return
     if m["ok"] != impl_ok:
         sr.corr_mismatch("resolve: accepted/rejected", brief, "ok" if impl_ok else "raise:" + res.get("family", "?"),
                          "ok" if m["ok"] else m["err"], signature=SIG_DESIGN if (is_design and impl_ok) else None)
